@@ -23,6 +23,7 @@ import (
 	"fmt"
 	"io"
 	"path"
+	"strings"
 
 	"github.com/google/gce-tcb-verifier/cmd/output"
 	"github.com/google/gce-tcb-verifier/keys"
@@ -147,6 +148,12 @@ func defaultGenerateBasename(ctx context.Context, cops ChangeOps) (string, error
 	// The manifest indexes endorsement files by this name, so it must be the canonical spelling of
 	// the file it denotes: "x/../rc0" and "rc0" are the same file and must be the same entry.
 	basename := path.Clean(fmt.Sprintf("%s.%s", release, endorsementFileExt))
+	// The manifest lists its files by their path below the output directory. A rooted name or one
+	// that climbs out of the directory has no such path: "/rc0", "../out/rc0" and "rc0" can all be
+	// the same file, and "../rc0" is a file the manifest's directory does not hold.
+	if path.IsAbs(basename) || strings.HasPrefix(basename, "../") {
+		return "", fmt.Errorf("candidate name %q does not name a file below the output directory", release)
+	}
 	path := releasePath(ctx, basename)
 	exists, err := fileExists(ctx, cops, path)
 	if err != nil {
